@@ -27,7 +27,7 @@ Record Inv2 (s : st) : Prop := mkInv2 {
   j_w0 : forall a v, getv s a = Some v -> v_status v <> StatusActive -> v_weight v = 0;
   j_q : forall a v, getv s a = Some v -> v_status v = StatusQueued ->
           v_locked v = 0 /\ 1 <= v_queued v /\
-          a_pv (get_agg s a) = sumf (dp_v a) (dels s) /\ a_pw (get_agg s a) = sumf (dp_w a) (dels s);
+          a_pv (get_agg s a) = sumf (dp_v a) (dels s) /\ a_pw (get_agg s a) = sumf (dp_w a) (dels s) /\ v_punlock v = 0;
   j_new : forall a, getv s a = None -> get_agg s a = agg0;
   j_dv : forall id d, In (id, d) (dels s) -> getv s (d_val d) <> None;
   j_st : forall a v, getv s a = Some v ->
@@ -121,7 +121,7 @@ Lemma Inv2_setv s a v v' :
   Inv2 s -> getv s a = Some v ->
   v_status v' = v_status v -> v_weight v' = v_weight v -> v_locked v' = v_locked v -> v_exit v' = v_exit v ->
   v_cooldown v' <= v_cooldown v ->
-  (v_status v = StatusQueued -> v_queued v' = v_queued v) ->
+  (v_status v = StatusQueued -> v_queued v' = v_queued v /\ v_punlock v' = v_punlock v) ->
   (v_status v = StatusActive -> v_punlock v' + 1 <= v_locked v) ->
   Inv2 (setv a v' s).
 Proof.
@@ -149,7 +149,7 @@ Proof.
   - intros b x Hx Hs. destruct (Gc b x Hx) as [[-> ->]|[Hne Hb]]; [|eauto]. rewrite Es in Hs. rewrite Ew. eauto.
   - intros b x Hx Hs. rewrite Ga. change (dels (setv a v' s)) with (dels s).
     destruct (Gc b x Hx) as [[-> ->]|[Hne Hb]]; [|eauto]. rewrite Es in Hs.
-    destruct (H8 a v Hv Hs) as [A1 [A2 [A3 A4]]]. rewrite El, (Eq Hs). auto.
+    destruct (H8 a v Hv Hs) as [A1 [A2 [A3 [A4 A5]]]]. destruct (Eq Hs) as [Eq1 Eq2]. rewrite El, Eq1, Eq2. auto.
   - intros b Hb. rewrite Ga. apply H9. destruct (N.eq_dec a b) as [<-|Hne]; [rewrite getv_setv_same in Hb; discriminate|].
     rewrite getv_setv_other in Hb; auto.
   - intros id d Hd. change (dels (setv a v' s)) with (dels s) in Hd. specialize (H10 id d Hd).
@@ -218,7 +218,7 @@ Lemma Inv2_setv_x s ex a v v' :
   Inv2 s -> getv s a = Some v ->
   v_status v' = v_status v -> v_weight v' = v_weight v -> v_locked v' = v_locked v ->
   v_cooldown v' <= v_cooldown v ->
-  (v_status v = StatusQueued -> v_queued v' = v_queued v) ->
+  (v_status v = StatusQueued -> v_queued v' = v_queued v /\ v_punlock v' = v_punlock v) ->
   (v_status v = StatusActive -> v_punlock v' + 1 <= v_locked v) ->
   (forall b c, mget ex b = c -> c <> 0 -> blk s < b ->
      exists x, getv (setv a v' s) c = Some x /\ v_status x = StatusActive /\ v_exit x = Some b) ->
@@ -247,7 +247,7 @@ Proof.
   - intros b x Hx Hs. destruct (Gc b x Hx) as [[-> ->]|[Hne Hb]]; [|eauto]. rewrite Es in Hs. rewrite Ew. eauto.
   - intros b x Hx Hs. rewrite Ga. change (dels (setv a v' s1)) with (dels s).
     destruct (Gc b x Hx) as [[-> ->]|[Hne Hb]]; [|eauto]. rewrite Es in Hs.
-    destruct (H8 a v Hv Hs) as [A1 [A2 [A3 A4]]]. rewrite El, (Eq Hs). auto.
+    destruct (H8 a v Hv Hs) as [A1 [A2 [A3 [A4 A5]]]]. destruct (Eq Hs) as [Eq1 Eq2]. rewrite El, Eq1, Eq2. auto.
   - intros b Hb. rewrite Ga. apply H9. destruct (N.eq_dec a b) as [<-|Hne]; [rewrite getv_setv_same in Hb; discriminate|].
     rewrite getv_setv_other in Hb; auto.
   - intros id d Hd. change (dels (setv a v' s1)) with (dels s) in Hd. specialize (H10 id d Hd).
@@ -305,7 +305,7 @@ Proof.
   - intros b y Hy Hs. unfold s'. rewrite get_agg_set_agg2. destruct (a =? b) eqn:E; [|apply H6; auto].
     apply N.eqb_eq in E. subst b. rewrite Elw. apply H6; auto.
   - intros b y Hy. eauto.
-  - intros b y Hy Hs. destruct (H8 b y Hy Hs) as [A1 [A2 [A3 A4]]]. split; auto. split; auto.
+  - intros b y Hy Hs. destruct (H8 b y Hy Hs) as [A1 [A2 [A3 [A4 A5]]]]. split; auto. split; auto.
     unfold s'. rewrite get_agg_set_agg2. cbn [dels set_agg w_aggs w_dels].
     destruct (a =? b) eqn:E.
     + apply N.eqb_eq in E. subst b. assert (y = v) by congruence. subst y. destruct (Eq Hs) as [Q1 Q2].
@@ -344,7 +344,7 @@ Proof.
   intros [H1 H2 H3 H4 H5 H6 H7 H8 H9 H10 H11] Ed Hv Hod Hoa Hnq.
   constructor; auto.
   - destruct H3 as [lr [R A]]. exists lr. split; [apply (RWF_ext s _ lr); try reflexivity; exact R|]. auto.
-  - intros b y Hy Hs. destruct (H8 b y Hy Hs) as [A1 [A2 [A3 A4]]]. split; auto. split; auto.
+  - intros b y Hy Hs. destruct (H8 b y Hy Hs) as [A1 [A2 [A3 [A4 A5]]]]. split; auto. split; auto.
     change (get_agg (w_dels (upd (dels s) id d) c s) b) with (get_agg s b). cbn [dels w_dels].
     assert (E : a <> b). { intros <-. apply Hnq. change (getv s a = Some y) in Hy. congruence. }
     destruct (dp_other a b d Ed E) as [Z1 Z2]. destruct (dp_other a b o Hoa E) as [Z3 Z4].
@@ -417,7 +417,7 @@ Proof.
   - intros b x Hx Hs. destruct (N.eq_dec b a) as [->|Hne]; [destruct status_ne as [_ [_ N2]]; congruence|].
     destruct (core_rel_rev _ _ _ _ _ C Hne Hx) as [y [Hy Ec]]. cf Ec.
     destruct (H8 b y Hy) as [A1 [A2 [A3 A4]]]; [congruence|]. rewrite Ga, Ed.
-    assert (E : (a =? b) = false) by (apply N.eqb_neq; auto). rewrite E. rewrite Cl, Cq. auto.
+    assert (E : (a =? b) = false) by (apply N.eqb_neq; auto). rewrite E. rewrite Cl, Cq, Cp. tauto.
   - intros b Hb. rewrite Ga. destruct (a =? b) eqn:E; auto. apply N.eqb_neq in E. apply H9.
     destruct (getv s b) as [y|] eqn:Ey; auto. destruct (proj2 (C b (fun e => E (eq_sym e))) y Ey) as [y' [Hy' _]]. congruence.
   - intros id d Hin. rewrite Ed in Hin. specialize (H10 id d Hin). destruct (N.eq_dec (d_val d) a) as [->|Hne]; [congruence|].
@@ -429,13 +429,13 @@ Qed.
 (* a new queued record appears *)
 Lemma Inv2_new s s' a e0 :
   Inv2 s -> core_rel s s' a -> getv s a = None -> getv s' a = Some e0 ->
-  v_status e0 = StatusQueued -> v_weight e0 = 0 -> v_locked e0 = 0 -> 1 <= v_queued e0 -> v_cooldown e0 = 0 ->
+  v_status e0 = StatusQueued -> v_weight e0 = 0 -> v_locked e0 = 0 -> 1 <= v_queued e0 -> v_cooldown e0 = 0 -> v_punlock e0 = 0 ->
   aggs s' = aggs s -> dels s' = dels s -> exits s' = exits s -> blk s' = blk s -> g_lw s' = g_lw s ->
   rh s' = rh s -> rt s' = rt s -> rprev s' = rprev s -> rnext s' = rnext s ->
   sumf v_weight (vals s') = sumf v_weight (vals s) + v_weight e0 ->
   Inv2 s'.
 Proof.
-  intros [H1 H2 H3 H4 H5 H6 H7 H8 H9 H10 H11] C Hn He0 Est Ew0 El0 Eq1 Ecd Eag Ed Eex Eb Eg R1 R2 R3 R4 Esum.
+  intros [H1 H2 H3 H4 H5 H6 H7 H8 H9 H10 H11] C Hn He0 Est Ew0 El0 Eq1 Ecd Epu Eag Ed Eex Eb Eg R1 R2 R3 R4 Esum.
   assert (Ga : forall b, get_agg s' b = get_agg s b) by (intros; unfold get_agg; rewrite Eag; auto).
   assert (Gx : forall b, get_exit s' b = get_exit s b) by (intros; unfold get_exit; rewrite Eex; auto).
   assert (Hexists : forall b x, getv s b = Some x -> b <> a) by (intros b x Hx ->; congruence).
@@ -460,9 +460,9 @@ Proof.
       { intros k d Hin. specialize (H10 k d Hin). unfold dp_v. destruct (d_val d =? a) eqn:E; auto.
         apply N.eqb_eq in E. congruence. }
       rewrite (sumf_all_zero (dp_v a) (dels s) Z).
-      rewrite (sumf_all_zero (dp_w a) (dels s)); auto. intros k d Hin. apply dp_zero. eauto.
+      rewrite (sumf_all_zero (dp_w a) (dels s)); [auto|]. intros k d Hin. apply dp_zero. eauto.
     + destruct (core_rel_rev _ _ _ _ _ C Hne Hx) as [y [Hy Ec]]. cf Ec.
-      destruct (H8 b y Hy) as [A1 [A2 [A3 A4]]]; [congruence|]. rewrite Cl, Cq. auto.
+      destruct (H8 b y Hy) as [A1 [A2 [A3 A4]]]; [congruence|]. rewrite Cl, Cq, Cp. tauto.
   - intros b Hb. rewrite Ga. apply H9. destruct (getv s b) as [y|] eqn:Ey; auto.
     destruct (proj2 (C b (Hexists b y Ey)) y Ey) as [y' [Hy' _]]. congruence.
   - intros id d Hin. rewrite Ed in Hin. specialize (H10 id d Hin).
